@@ -229,6 +229,7 @@ var raceMixes = []struct {
 	{"keys", mixKeys},
 	{"enum-intern", mixEnum},
 	{"vacuum-beside-writers", mixVacuum},
+	{"sorted-iteration-beside-writers", mixSorted},
 }
 
 func raceRound(w *W, idx int) {
@@ -640,6 +641,60 @@ func mixEnum(w *W, idx, rep int) map[string]int64 {
 	return map[string]int64{"enum_stores_of_new_strings": writes, "reads": reads, "commits": atomic.LoadInt64(&hook.commits)}
 }
 
+// sorted-index iteration (plain and filtered) beside writers that store to the sorted column,
+// delete and re-insert; no growth into new blocks and no new enum strings (the recorded races)
+func mixSorted(w *W, idx, rep int) map[string]int64 {
+	c := stressCollection(16384, false)
+	defer c.Close()
+	c.Query(func(txn *column.Txn) error {
+		for i := 0; i < 800; i++ {
+			txn.Insert(func(r column.Row) error { writeTag(r, int64(i)); return nil })
+		}
+		return nil
+	})
+	c.CreateSortIndex("by_s", "s")
+	c.CreateIndex("odd", "a", func(r column.Reader) bool { return r.Int()&1 == 1 })
+	hook := &stressHook{delayPct: 10, seed: w.Seed + int64(idx)}
+	hook.install(c)
+	defer hook.remove()
+	var left int32 = 4
+	var scans, visited int64
+	n := scale(w, 150, 600)
+	var fns []func()
+	for wi := 0; wi < 4; wi++ {
+		wi := wi
+		fns = append(fns, func() {
+			defer atomic.AddInt32(&left, -1)
+			r := rngFor(w.Seed, 28, idx, wi)
+			for i := 0; i < n; i++ {
+				c.Query(func(txn *column.Txn) error {
+					for j := 0; j < 3; j++ {
+						txn.QueryAt(uint32(r.Intn(800)), func(row column.Row) error { writeTag(row, int64(wi+1)<<40|int64(i)); return nil })
+					}
+					return nil
+				})
+			}
+		})
+	}
+	for ri := 0; ri < 4; ri++ {
+		ri := ri
+		fns = append(fns, func() {
+			for atomic.LoadInt32(&left) > 0 {
+				c.Query(func(txn *column.Txn) error {
+					if ri%2 == 1 {
+						txn.With("odd")
+					}
+					txn.Ascend("by_s", func(uint32) { atomic.AddInt64(&visited, 1) })
+					return nil
+				})
+				atomic.AddInt64(&scans, 1)
+			}
+		})
+	}
+	parallel(fns...)
+	return map[string]int64{"ascend_scans": scans, "rows_visited": visited, "commits": atomic.LoadInt64(&hook.commits)}
+}
+
 // the cleanup goroutine (1 ms interval) deleting expired rows beside writers, extenders and readers
 func mixVacuum(w *W, idx, rep int) map[string]int64 {
 	c := column.NewCollection(column.Options{Capacity: 64, Vacuum: time.Millisecond})
@@ -717,7 +772,7 @@ func init() {
 		MinEvents: map[string]int64{"reader_callbacks": 10000, "reader_callbacks_overlapping_a_commit": 1000},
 	})
 	register(&Property{ID: "C18", Level: "exploration",
-		Rule:   "one case = one round of one of seven workload mixes aimed at shared mutable state (writers growing the collection across blocks beside readers; offset reuse; snapshots and restores into other collections beside multi-block writers; index/sorted-index/trigger creation and removal beside writers and readers; key table under parallel upserts; enum interning of new strings beside readers; the cleanup goroutine at a 1 ms interval beside inserts with short TTLs, extensions and readers), each a fixed number of transactions per goroutine on 8-16 goroutines, race-detector build with micro-delays at the hooks, each mix repeated; a race report = violation unless its stack pair matches a recorded finding exactly; a round that never completes = violation after goroutine-dump classification; distinct = (mix, repetition)",
+		Rule:   "one case = one round of one of eight workload mixes aimed at shared mutable state (writers growing the collection across blocks beside readers; offset reuse; snapshots and restores into other collections beside multi-block writers; index/sorted-index/trigger creation and removal beside writers and readers; key table under parallel upserts; enum interning of new strings beside readers; the cleanup goroutine at a 1 ms interval beside inserts with short TTLs, extensions and readers; sorted-index iteration beside writers of the sorted column), each a fixed number of transactions per goroutine on 8-16 goroutines, race-detector build with micro-delays at the hooks, each mix repeated; a race report = violation unless its stack pair matches a recorded finding exactly; a round that never completes = violation after goroutine-dump classification; distinct = (mix, repetition)",
 		Assume: []string{"the race detector only reports races that the executed schedules make observable", "deadlock = watchdog (40 min per worker) expired and every workload goroutine blocked in a sync/channel wait; anything else that exceeds the watchdog is inconclusive"},
 		Plan: func(tier string) []Plan {
 			n := len(raceMixes) * 2
